@@ -18,6 +18,7 @@ MEMBERS = [
     ("cnfgen.families.subgraph", "CliqueFormula"),
     ("cnfgen.families.subgraph", "BinaryCliqueFormula"),
     ("cnfgen.families.subgraph", "RamseyWitnessFormula"),
+    ("cnfgen.families.subgraph", "non_edges"),
 ]
 
 DELEGATES = [
